@@ -455,11 +455,16 @@ def f13_probe(run):
                               {"witness": F13_WITNESS, "observed": out}, found_input=False)
 
 
-def main(run):
-    info = proof_stage(run, "C06", extra_targets=["corr/C06_corr.vo"])
-    harness_build()
-    n = 220 if run.tier == "quick" else 4000
-    cases = gen_cases(run, n)
+def main(run, only=None, only_div=None):
+    """only / only_div: the journal cases / the division cases of a replay (no generation, no proof stage, no F13 probe, no verdict)"""
+    replaying = only is not None or only_div is not None
+    if not replaying:
+        info = proof_stage(run, "C06", extra_targets=["corr/C06_corr.vo"])
+        harness_build()
+        n = 220 if run.tier == "quick" else 4000
+        cases = gen_cases(run, n)
+    else:
+        cases = only or []
     res1 = harness_run(make_reqs(cases, "text"))
     second = []
     for c, rr in zip(cases, res1):
@@ -498,9 +503,10 @@ def main(run):
         terms.append("c06_case (mkCfg %s %s) %s %s %s" % (g_Z(off), g_Z(dt), g_str(c["text"]), g_session(c["s1"]),
                                                         g_session(c.get("s2"))))
         idx.append(i)
-    f13_probe(run)
+    if not replaying:
+        f13_probe(run)
     # Decimal division contract
-    dcs = div_cases(run, 60 if run.tier == "quick" else 1500)
+    dcs = div_cases(run, 60 if run.tier == "quick" else 1500) if not replaying else (only_div or [])
     dres = harness_run([{"kind": "dec", "op": "div", "a": jd(a), "b": jd(b)} for a, b in dcs])
     dterms, didx = [], []
     for k, ((a, b), rr) in enumerate(zip(dcs, dres)):
@@ -563,6 +569,8 @@ def main(run):
             run.violation("correspondence broken: Journal.ddiv differs from rust_decimal division on an exact quotient",
                           {"correspondence": "C06_corr.c06_div_case", "a": a, "b": d, "implementation": dres[k].get("ok")}, found_input=False)
     run.cov["evaluations"] += n_div_def
+    if replaying:
+        return None
     run.cov["distinct_nontrivial"] = len(distinct)
     run.cov["rule"] = ("seeded journals of 1-3 transactions in free format (blanks/TABs, CRLF, metadata in any order, every header, metadata and comment "
                        "feature, Unicode names, '@' '=' '{..}' positions, trailing-zero prices, implicit last posting, years 0000-9999, offsets to "
@@ -577,21 +585,38 @@ def main(run):
 
 
 def replay(run, path):
-    j = json.load(open(path))
-    print(json.dumps(j, indent=1, ensure_ascii=False)[:8000])
-    rp = j.get("replay", {})
-    if "journal" in rp:
-        harness_build()
+    """the stored journal under its journal-zone configuration: export, re-load, re-export through the harness + c06_case;
+    a division case through the harness + c06_div_case; the F13 witness through f13_probe"""
+    j, rp, rc = replay_begin(run, path)
+    if rc is not None:
+        return rc
+    print(j.get("what"))
+    if isinstance(rp.get("journal"), str):
         zone = rp.get("config_zone", "UTC")
         cfg = [k for k, c in enumerate(CFGS) if c[0] == zone] or [0]
-        c = {"text": rp["journal"], "cfg": cfg[0]}
-        r1 = harness_run(make_reqs([c], "text"))[0]
-        st, s = session_of(r1)
-        print("first session:", st)
-        if s:
-            print(s[1])
-            c["id1"] = s[1]
-            st2, s2 = session_of(harness_run(make_reqs([c], "id1"))[0])
-            print("second session:", st2, "| export identical:", bool(s2 and s2[1] == s[1]),
-                  "| same transactions (by value):", bool(s2 and same_by_value(s[0], s2[0])))
-    return 0
+        c = {"text": rp["journal"], "cfg": cfg[0], "tags": list(rp.get("injected") or []), "src": "replay"}
+        print("journal (journal zone %s):\n%s" % (zone, c["text"]))
+        corr_build("C06")
+        harness_build()
+        main(run, only=[c])
+        print("first session: %s" % c.get("st1"))
+        if c.get("s1"):
+            print(c["s1"][1])
+            s2 = c.get("s2")
+            print("second session: %s | export identical: %s | same transactions (by value): %s"
+                  % (c.get("st2"), bool(s2 and s2[1] == c["s1"][1]), bool(s2 and same_by_value(c["s1"][0], s2[0]))))
+        return replay_verdict(run, path, j, "the stored journal is %s; an accepted journal's identity export re-loads to the same transactions and is a fixed "
+                                            "point, and the model agrees (or the case is outside the exact domain)" % c.get("st1"))
+    if "c06_div_case" in str(rp.get("correspondence")) and "a" in rp and "b" in rp:
+        a, b = tuple(rp["a"]), tuple(rp["b"])
+        print("division %s / %s" % (a, b))
+        corr_build("C06")
+        harness_build()
+        main(run, only_div=[(a, b)])
+        return replay_verdict(run, path, j, "Journal.ddiv agrees with rust_decimal on the stored quotient (or the case is outside the contract)")
+    if isinstance(rp.get("witness"), dict) and "observed" in rp:
+        harness_build()
+        f13_probe(run)
+        print("F13 witness now: %s" % json.dumps(run.notes.get("F13_witness"), ensure_ascii=False))
+        return replay_verdict(run, path, j, "the F13 witness behaves as known-findings.jsonl says")
+    return replay_print(j)
